@@ -6,6 +6,9 @@
 package vsync
 
 import (
+	"fmt"
+	"reflect"
+
 	"filippo.io/edwards25519/vsched"
 	"filippo.io/edwards25519/vsync/atomic"
 )
@@ -39,6 +42,9 @@ func (m *Mutex) Unlock() {
 	}
 	vsched.Release(&m.vc)
 	m.locked = false
+	// other threads may observe the released state before this one goes on
+	// with work the scheduler cannot see
+	vsched.Point("after-release", "mutex")
 }
 
 type Locker interface {
@@ -119,26 +125,49 @@ type Pool struct {
 	New   func() any
 	m     Mutex
 	items []any
+	owned map[any]int // pointer-like objects handed out and not yet returned -> owning thread
+}
+
+func poolKey(x any) (any, bool) {
+	if x == nil {
+		return nil, false
+	}
+	switch reflect.TypeOf(x).Kind() {
+	case reflect.Pointer, reflect.UnsafePointer, reflect.Chan, reflect.Map:
+		return x, true
+	}
+	return nil, false
 }
 
 func (p *Pool) Get() any {
 	p.m.Lock()
-	defer p.m.Unlock()
+	var x any
 	if n := len(p.items); n > 0 {
-		x := p.items[n-1]
+		x = p.items[n-1]
 		p.items = p.items[:n-1]
-		return x
+	} else if p.New != nil {
+		x = p.New()
 	}
-	if p.New != nil {
-		return p.New()
+	if k, ok := poolKey(x); ok {
+		if p.owned == nil {
+			p.owned = map[any]int{}
+		}
+		if other, dup := p.owned[k]; dup {
+			vsched.Fault(fmt.Sprintf("sync.Pool handed the same object to two goroutines at once (T%d still holds it, now also T%d): it was put back more than once or used after Put", other, vsched.CurID()))
+		}
+		p.owned[k] = vsched.CurID()
 	}
-	return nil
+	p.m.Unlock()
+	return x
 }
 
 func (p *Pool) Put(x any) {
 	p.m.Lock()
-	defer p.m.Unlock()
+	if k, ok := poolKey(x); ok && p.owned != nil {
+		delete(p.owned, k)
+	}
 	p.items = append(p.items, x)
+	p.m.Unlock()
 }
 
 type WaitGroup struct {
